@@ -1281,6 +1281,9 @@ def run(ctx):
                            why=v['what'], same_kind_in_this_run=sum(1 for x in viol if (x['case']['op'], x['kind']) == kk),
                            replay='ASAN_OPTIONS=detect_leaks=1:leak_check_at_exit=0 %s < %s' % (hexe, rp)),
                       msg='%s (%s) k=%s: %s' % (c['op'], c['tag'], v['k'], v['what'][:300]))
+    if any(not noin for _, noin, _ in ctx.violations):
+        for b in ctx.broken:          # the search for a failing input succeeded: the concrete violations above are the report
+            if b['kind'] in ('proof', 'translator', 'correspondence', 'inventory'): b['resolved'] = True
     for c in cases[:3]:
         ctx.sample('%s p1=%r p2=%d A=%s' % (c['op'], c['p1'], c['p2'], wkt(c['A'])[:200]))
     ctx.notes['violating_steps'] = len(viol)
